@@ -171,7 +171,7 @@ theorem OptLocWf.some {env : Env} {l : Loc} (h : LocWf env l) : OptLocWf env (so
 
 /-! ### the priority merge preserves well-formedness -/
 
-theorem merge_rich_wf {env : Env} {a : Loc} (ha : LocWf env a) (e : Err) :
+theorem merge_rich_wf {env : Env} {a : Loc} (ha : LocWf env a) {e : Err} (he : LocWf env ⟨a.pos, e⟩) :
     LocWf env ⟨a.pos, ErrKind.rich.merge a.err e⟩ := by
   refine ⟨ha.pos_le, ha.ordered, ha.inside, ?_⟩
   intro exp fo hr
@@ -186,10 +186,13 @@ theorem merge_rich_wf {env : Env} {a : Loc} (ha : LocWf env a) (e : Err) :
     | ef eb fb =>
       rw [her] at hr
       simp only [Reason.flatMerge] at hr
-      have hfo : fo = fa := by
+      have hfo : fo = fa.or fb := by
         split at hr <;> (simp only [Reason.ef.injEq] at hr; exact hr.2.symm)
-      rw [hfo]
-      exact ha.ef ea fa har
+      -- both errors are truthful about the token at the (common) position, so either `found` will do
+      have h1 := (ha.ef ea fa har).2
+      have h2 : fb = env.toks[a.pos]? := (he.ef eb fb her).2
+      refine ⟨(ha.ef ea fa har).1, ?_⟩
+      rw [hfo, h1, h2]; cases env.toks[a.pos]? <;> rfl
 
 theorem mergeAlt_wf {env : Env} (hek : env.ek = .rich) {alt : Option Loc} (ha : OptLocWf env alt) {p : Nat}
     {e : Err} (he : LocWf env ⟨p, e⟩) : OptLocWf env (St.mergeAlt env.ek alt p e) := by
@@ -200,7 +203,7 @@ theorem mergeAlt_wf {env : Env} (hek : env.ek = .rich) {alt : Option Loc} (ha : 
     have haw := ha a rfl
     rcases Nat.lt_trichotomy a.pos p with h | h | h
     · rw [mergeAlt_some_lt _ _ _ _ h]; exact OptLocWf.some he
-    · rw [mergeAlt_some_eq _ _ _ _ h]; exact OptLocWf.some (merge_rich_wf haw e)
+    · rw [mergeAlt_some_eq _ _ _ _ h]; exact OptLocWf.some (merge_rich_wf haw (by rw [h]; exact he))
     · rw [mergeAlt_some_gt _ _ _ _ h]; exact OptLocWf.some haw
 
 theorem Option.or_self' {α : Type} (x : Option α) : x.or x = x := by cases x <;> rfl
